@@ -516,7 +516,30 @@ def piece_var(e):
     return None
 
 
+FILT = "structure/filter.py"
+
+
+def altloc_marker_rules(ctx):
+    """a record written by this package carries a blank in the altloc column; every altloc policy the reader offers ('first',
+    'occupancy') must take the blank - and '.', '?', '' - for 'no alternate location', and both policies must agree on the set"""
+    f = ctx.src(FILT)
+    sets = {}
+    for q, fn in f.funcs.items():
+        for c in ast.walk(fn):
+            if isinstance(c, ast.Call) and (call_name(c) or "").endswith("isin") and len(c.args) >= 2 and isinstance(c.args[1], (ast.List, ast.Tuple, ast.Set)) \
+                    and all(isinstance(e, ast.Constant) and isinstance(e.value, str) for e in c.args[1].elts) \
+                    and "altloc" in ast.unparse(c.args[0]):
+                sets[q] = frozenset(e.value for e in c.args[1].elts)
+    # (one shared helper may serve both policies)
+    ctx.need(len(sets) >= 1, "the 'no altloc' marker set of the altloc filters (np.isin(altloc_ids, [..]))")
+    for q, st in sorted(sets.items()):
+        ctx.ob("R5.altloc-markers", FILT, q, f"no altloc: {sorted(st)}", st >= {".", "?", " ", ""} and len(set(sets.values())) == 1,
+               "the markers of 'no alternate location' must contain the blank of the PDB column (and '.', '?', '') in both policies: "
+               "otherwise every atom of a file written by this package is dropped when it is read with that policy", f.func(q).lineno)
+
+
 def run(ctx):
+    altloc_marker_rules(ctx)
     src = ctx.src(FILE)
     slices = slice_table(src)
     ctx.floor("reader-slices", len(slices), 20)
